@@ -687,6 +687,15 @@ def moveToNextWord (S : Segmenter) (U : UData) (a : At) (d : Word) (n : Nat) : L
   | some p => setPos p; return true
   | none => return false
 
+/-- `line.grapheme_indices(true).find(|&(idx, _)| layout.width(&line[..idx]) >= wanted)` of
+    `move_to_line_up/down` (after the D36 repair): offset of the first cluster whose start is at or right
+    of the wanted display column -/
+def colFind (U : UData) (line : Text) (wanted : Nat) : List (Nat × Text) → Except Panic (Option Nat)
+  | [] => pure none
+  | (idx, _) :: rest => do
+    let pre ← sliceTo line idx
+    if U.width pre ≥ wanted then pure (some idx) else colFind U line wanted rest
+
 /-- `for _ in 1..n` loop of `move_to_line_up`; state `(dest_start, dest_end)` -/
 def luLoop (buf : Text) : Nat → Nat → Nat → Except Panic (Nat × Nat)
   | 0, ds, de => pure (ds, de)
@@ -715,8 +724,8 @@ def moveToLineUp (S : Segmenter) (U : UData) (n : Nat) (promptCol : Nat) : LM Bo
     let (ds, de) ← lift (luLoop lb.buf (n - 1) ds off)
     let offset := if ds == 0 then promptCol else 0
     let line ← lift (slice lb.buf ds de)
-    match (gidx S line)[column - offset]? with
-    | some (idx, _) => setPos (ds + idx)
+    match ← lift (colFind U line (column - offset) (gidx S line)) with
+    | some idx => setPos (ds + idx)
     | none => setPos de
     return true
   | none => return false
@@ -754,8 +763,8 @@ def moveToLineDown (S : Segmenter) (U : UData) (n : Nat) (promptCol : Nat) : LM 
       | none => lb.len
     let (ds, de) ← lift (ldLoop lb.buf (n - 1) ds de)
     let line ← lift (slice lb.buf ds de)
-    match (gidx S line)[column]? with
-    | some (idx, _) => setPos (ds + idx)
+    match ← lift (colFind U line column (gidx S line)) with
+    | some idx => setPos (ds + idx)
     | none => setPos de
     return true
   | none => return false
